@@ -109,3 +109,11 @@ func init() {
 		return TupleV{p.tt.Extract(m, 127, 64), p.tt.Extract(m, 63, 0)}
 	}
 }
+
+func init() {
+	// vs.Concretize(x): fork over the feasible values of x and return it as a constant
+	intrinsics[vsPkg+".Concretize"] = func(p *Path, fn *ssa.Function, a []Value) Value {
+		t := a[0].(*Term)
+		return BVConst(p.concretize(t, "vs.Concretize"), t.S.W)
+	}
+}
